@@ -148,3 +148,99 @@ Proof.
   - rewrite cmpBytes_loop_panic. tauto.
   - split; [discriminate|]. intros [? _]. lia.
 Qed.
+
+(** * CmpUpto: the two branches on explicit shapes *)
+Lemma nthZ_last2a {A} (p : list A) v m i : i = zlen p -> nthZ (p ++ [v; m]) i = Some v.
+Proof. intros H. now apply nthZ_app_at. Qed.
+
+Lemma nthZ_last2b {A} (p : list A) v m i : i = zlen p + 1 -> nthZ (p ++ [v; m]) i = Some m.
+Proof.
+  intros H. change (p ++ [v; m]) with (p ++ [v] ++ [m]). rewrite app_assoc.
+  apply nthZ_app_at. rewrite zlen_app. exact H.
+Qed.
+
+Lemma CmpUpto_short a p v m : (length a <= length p)%nat ->
+  CmpUpto a (p ++ [v; m]) = Some (cmp_sign (bytes_cmp a (p ++ [v]))).
+Proof.
+  intros H. unfold CmpUpto. cbv zeta.
+  rewrite zlen_app. change (zlen [v; m]) with 2.
+  pose proof (zlen_nonneg p).
+  destruct (Z.eqb_spec (zlen p + 2) 1); [lia|].
+  destruct (Z.ltb_spec (zlen a) (zlen p + 2 - 1)); [|unfold zlen in *; lia].
+  change (p ++ [v; m]) with (p ++ [v] ++ [m]). rewrite app_assoc.
+  rewrite sliceZ_prefix by (rewrite zlen_app; change (zlen [v]) with 1; lia).
+  apply cmpBytes_eq. left. rewrite app_length. cbn [length]. lia.
+Qed.
+
+Lemma CmpUpto_long a1 x a2 p v m : length a1 = length p ->
+  CmpUpto (a1 ++ x :: a2) (p ++ [v; m]) =
+  Some (match bytes_cmp a1 p with Eq => cmp_sign (Z.land x m ?= v) | r => cmp_sign r end).
+Proof.
+  intros H. unfold CmpUpto. cbv zeta.
+  rewrite !zlen_app. change (zlen [v; m]) with 2. rewrite zlen_cons.
+  pose proof (zlen_nonneg p). pose proof (zlen_nonneg a2).
+  assert (zlen a1 = zlen p) by (unfold zlen; lia).
+  destruct (Z.eqb_spec (zlen p + 2) 1); [lia|].
+  destruct (Z.ltb_spec (zlen a1 + (1 + zlen a2)) (zlen p + 2 - 1)); [lia|].
+  rewrite !sliceZ_prefix by lia.
+  rewrite cmpBytes_eq by (left; lia).
+  rewrite nthZ_app_at by lia. rewrite nthZ_last2b by lia. rewrite nthZ_last2a by lia.
+  f_equal. destruct (bytes_cmp a1 p); cbn [cmp_sign Z.eqb negb]; try reflexivity.
+  unfold Z.gtb, Z.ltb. now destruct (Z.land x m ?= v).
+Qed.
+
+(** the last, masked byte of [a] against the last payload byte *)
+Lemma byte_cmp_masked x c : byte_ok x -> (0 < length c <= 8)%nat ->
+  (Z.land x (256 - 2 ^ (8 - Z.of_nat (length c))) ?= val_msb (c ++ repeat false (8 - length c)))
+  = bits_cmp (firstn (length c) (byte_bits x)) c.
+Proof.
+  intros Hx Hc. rewrite land_high_mask by assumption.
+  set (k := length c). set (u := firstn k (byte_bits x)).
+  assert (Lu : length u = k) by (unfold u; rewrite firstn_length, byte_bits_length; lia).
+  rewrite byte_cmp_bits by (apply val_msb8_byte_ok; rewrite app_length, repeat_length; lia).
+  rewrite !byte_bits_val_msb by (rewrite app_length, repeat_length; lia).
+  unfold bits_cmp. rewrite lex_cmp_app_eqlen by lia. rewrite (lex_cmp_refl bool_cmp bool_cmp_refl).
+  now destruct (lex_cmp bool_cmp u c).
+Qed.
+
+Lemma split_at {A} (l : list A) n : (n < length l)%nat ->
+  exists l1 x l2, l = l1 ++ x :: l2 /\ length l1 = n.
+Proof.
+  intros H. destruct (skipn n l) as [|x l2] eqn:E.
+  - apply (f_equal (@length A)) in E. rewrite skipn_length in E. cbn in E. lia.
+  - exists (firstn n l), x, l2. split.
+    + rewrite <- E. symmetry. apply firstn_skipn.
+    + rewrite firstn_length. lia.
+Qed.
+
+Lemma CmpUpto_encB a b : bytes_ok a -> CmpUpto a (encB b) = Some (cmp_sign (bits_cmp (upto a b) b)).
+Proof.
+  intros Ha. destruct (list_eq_dec Bool.bool_dec b []) as [->|Hne]; [reflexivity|].
+  destruct (pack_decomp b Hne) as (p & c & Hp & Hc & Eb & Epack & Epad).
+  unfold encB. rewrite mask_eq, Epad, Epack, <- app_assoc. cbn [app].
+  replace (Z.of_nat (8 - length c)) with (8 - Z.of_nat (length c)) by lia.
+  assert (Hv : byte_ok (val_msb (c ++ repeat false (8 - length c))))
+    by (apply val_msb8_byte_ok; rewrite app_length, repeat_length; lia).
+  unfold upto. subst b. rewrite app_length, msb_bits_length.
+  destruct (le_lt_dec (length a) (length p)) as [Hs|Hl].
+  - rewrite CmpUpto_short by exact Hs. do 2 f_equal.
+    rewrite bytes_cmp_msb_bits; [|exact Ha|apply Forall_app; split; [exact Hp|constructor; [exact Hv|constructor]]].
+    rewrite msb_bits_app. cbn [msb_bits flat_map]. rewrite app_nil_r.
+    rewrite byte_bits_val_msb by (rewrite app_length, repeat_length; lia).
+    rewrite firstn_all2 by (rewrite msb_bits_length; lia).
+    fold (msb_bits p). rewrite app_assoc. unfold bits_cmp. apply lex_cmp_shorter_app.
+    rewrite app_length, !msb_bits_length. lia.
+  - destruct (split_at a (length p) Hl) as (a1 & x & a2 & -> & La1).
+    apply Forall_app in Ha as [Ha1 Ha2]. inversion Ha2 as [|? ? Hx Ha2']; subst.
+    rewrite CmpUpto_long by exact La1. f_equal.
+    rewrite msb_bits_app, msb_bits_cons.
+    rewrite firstn_app, msb_bits_length, La1.
+    rewrite (firstn_all2 (msb_bits a1)) by (rewrite msb_bits_length; lia).
+    replace (8 * length p + length c - 8 * length p)%nat with (length c) by lia.
+    rewrite firstn_app, byte_bits_length.
+    replace (length c - 8)%nat with 0%nat by lia. rewrite firstn_O, app_nil_r.
+    unfold bits_cmp. rewrite lex_cmp_app_eqlen by (rewrite !msb_bits_length; lia). fold bits_cmp.
+    rewrite <- bytes_cmp_msb_bits by assumption.
+    rewrite byte_cmp_masked by assumption.
+    now destruct (bytes_cmp a1 p).
+Qed.
